@@ -1,6 +1,6 @@
 #!/usr/bin/env python3
 """Sensitivity suite: every planted defect must be caught by the quick tier of
-its property; the two "none-expected" controls must stay green.
+its property; the "none-expected" control must stay green.
 
   python3 sensitivity/run.py [name-substring ...]      -> sensitivity/RESULTS.json
 
